@@ -86,7 +86,13 @@ class ErrorRender:
 		try:
 			return str(arg)
 		except Exception:
+			pass
+
+		try:
 			return repr(arg)
+		except Exception:
+			# XXX シンボル(リフレクション)は文字列化/シリアライズ表現のどちらも型解決を伴うため、両方失敗する場合がある
+			return f'<{arg.__class__.__name__}: (unprintable)>'
 
 	class Quotation:
 		"""引用ビルダー"""
